@@ -323,15 +323,31 @@ class FindDomainGetslice(Contract):
 
 
 def div_hints(path):
-    """ground instances of lemma `mul_ge` (lemmas/arith.py): for the Euclidean witnesses a = q*b + r introduced by
-    symbolic floor divisions, k != 0 -> |k*b| >= |b| instantiated at differences of quotients with the same divisor"""
+    """ground instances of lemma `mul_ge` (lemmas/arith.py:  b >= 0 and k >= 1 -> k*b >= b;  b >= 0 and k <= -1 -> k*b <= -b)
+    for the Euclidean witnesses a = q*b + r introduced by symbolic floor divisions, instantiated at the integer
+    combinations of quotients of the same divisor that can relate two dividends: q1-q2, q1-q2-q3 and q1-q2-q3-1"""
     out = []
     divs = path.ghost.get("divs", [])
+    seen = set()
+
+    def inst(k, b):
+        key = (str(k), str(b))
+        if key in seen:
+            return
+        seen.add(key)
+        out.append(z3.Implies(z3.And(b >= 0, k >= 1), k * b >= b))
+        out.append(z3.Implies(z3.And(b >= 0, k <= -1), k * b <= -b))
+
     for (a1, b1, q1, r1), (a2, b2, q2, r2) in itertools.combinations(divs, 2):
         if b1.eq(b2):
-            k = q1 - q2
-            out.append(z3.Implies(k >= 1, k * b1 >= b1))
-            out.append(z3.Implies(k <= -1, k * b1 <= -b1))
+            inst(q1 - q2, b1)
+    if len(divs) <= 6:
+        for x, y, w in itertools.permutations(divs, 3):
+            if x[1].eq(y[1]) and x[1].eq(w[1]) and str(y[2]) < str(w[2]) or (x[1].eq(y[1]) and x[1].eq(w[1])):
+                inst(x[2] - y[2] - w[2], x[1])
+                inst(x[2] - y[2] - w[2] - 1, x[1])
+                inst(x[2] - y[2] + w[2], x[1])
+                inst(x[2] - y[2] + w[2] + 1, x[1])
     return out
 
 
